@@ -224,6 +224,8 @@ func runC10(cx *Ctx, r *Report) {
 		r.check(must(take) && must(burn) && must(mint) && must(pay), "must-execute", "SwapFeeToken", burn.ev.Pos(cx), "all four effects are on every successful path", "an effect of SwapFeeToken is not on every successful path")
 	}
 	cx.lossLessFormula(r)
+	// the contract index that the EVM hook resolves tokens through is maintained wherever the record is stored
+	cx.derivedWriteGuards(r, []string{"token"}, "contract-index-maintained")
 	r.requireCount("inventory", 4)
 	r.requireCount("provenance", 4)
 	r.requireCount("balance-recheck", 2)
